@@ -25,7 +25,7 @@ func (o *cfgLayout) Init(c *Ctx) {
 }
 func (o *cfgLayout) NCases(string) int { return o.n }
 func (o *cfgLayout) Rule() string {
-	return "a case is one layout of a configuration (shipped test configuration, optionally plus generated classes with extends chains, overloads and namespaced frames): every file renamed so that Glob order is a seeded permutation, and 0-6 classes split into 2-3 fragment files interleaved with the others (all overloads of one method name stay together, in order; in a third of the splits they are separated too, keeping their relative load order); the ti node boots on the canonical and on the permuted layout for corpus and probe programs in diagnostics and -i mode. non-trivial = the load order really differs from the canonical one; distinct = distinct (load-order permutation digest, split set) layouts"
+	return "a case is one layout of a configuration (shipped test configuration, optionally plus generated classes with extends chains, overloads and namespaced frames): every file renamed so that Glob order is a seeded permutation, and 0-6 classes split into 2-3 fragment files interleaved with the others (all overloads of one method name stay together, in order; in a third of the splits they are separated too, keeping their relative load order); the ti node boots on the canonical and on the permuted layout for corpus and probe programs in diagnostics, -i, the editor queries, the --llm listings and --extends (--define compared as a set of lines). non-trivial = the load order really differs from the canonical one; distinct = distinct (load-order permutation digest, split set) layouts"
 }
 func (o *cfgLayout) ExpectedFaults() []string {
 	return []string{"rename-permutation", "split-class", "split-overloads", "generated-classes"}
@@ -99,6 +99,16 @@ func groupsOf(cf classFile, perOverload bool) []declGroup {
 					byName[m.Name] = len(out)
 					out = append(out, declGroup{f, []int{i}})
 				}
+			}
+		} else if f == "extends" {
+			// the parents of a class are an ordered list (method resolution order): one
+			// declaration, kept together in its order
+			var idx []int
+			for i := range arr {
+				idx = append(idx, i)
+			}
+			if len(idx) > 0 {
+				out = append(out, declGroup{f, idx})
 			}
 		} else {
 			for i := range arr {
@@ -446,8 +456,24 @@ func (o *cfgLayout) Make(c *Ctx, i int) *Case {
 			src, origin = pr.Src, "corpus:"+pr.Name
 		}
 		argv := []string{target}
-		if r.Chance(1, 3) {
+		switch r.Intn(9) {
+		case 0, 1, 2:
 			argv = append(argv, "-i")
+		case 3, 4:
+			// every other way of looking at the same analysis: the editor queries and the
+			// listings print what was loaded (parent lists, signatures, documents)
+			argv = append(argv, c05Modes(r, src)...)
+		case 5:
+			// the parents of a class whose declarations were fragmented (or of any class)
+			cls := "Integer"
+			for cn := range focus {
+				cls = cn
+				break
+			}
+			if r.Chance(1, 3) {
+				cls = r.Pick([]string{"Integer", "String", "Array", "Hash", "Object", "Gena", "Genb", "Genc", "Float", "Symbol"})
+			}
+			argv = append(argv, "--extends", "--class="+cls)
 		}
 		seed := r.U64()
 		cs.Steps = append(cs.Steps,
@@ -481,13 +507,17 @@ func (o *cfgLayout) Judge(c *Ctx, w *Worker, cs *Case) *Finding {
 		if a.Status != "exit" && a.Status == b.Status {
 			continue // crash / hang of the program itself: C01 / C02
 		}
-		if a.Status != b.Status || a.Exit != b.Exit || !bytes.Equal(a.Stdout, b.Stdout) {
+		argv := cs.Steps[i].Argv
+		if a.Status != b.Status || a.Exit != b.Exit || normaliseOut(argv, a.Stdout) != normaliseOut(argv, b.Stdout) {
 			cs.Meta["failing_pair"] = fmt.Sprint(i)
-			d := firstDiff(string(a.Stdout), string(b.Stdout))
+			d := firstDiff(normaliseOut(argv, a.Stdout), normaliseOut(argv, b.Stdout))
 			if a.Status != b.Status {
 				d = fmt.Sprintf("status %s vs %s (%s)", a.Status, b.Status, b.Panic)
 			}
 			shape := lineShape(strings.SplitN(d, ": ", 2)[len(strings.SplitN(d, ": ", 2))-1])
+			if m := modeOf(argv); m != "diag" && m != "-i" {
+				kind += ":" + m
+			}
 			return &Finding{Sig: "layout:" + kind + ":" + shape,
 				What: fmt.Sprintf("`ti %s` on program %q prints different output on a %s layout of the same declarations: %s", strings.Join(cs.Steps[i].Argv, " "), cs.Steps[i].Note, kind, d)}
 		}
@@ -504,10 +534,11 @@ func (o *cfgLayout) Confirm(c *Ctx, cs *Case, f *Finding) (bool, string) {
 	files := stepFiles(cs, idx)
 	ra := c.RealRun("ti", c.cfgID(cs, "canon"), files, cs.Steps[idx].Argv, nil)
 	rb := c.RealRun("ti", c.cfgID(cs, "layout"), files, cs.Steps[idx].Argv, nil)
-	if bytes.Equal(ra.Stdout, rb.Stdout) && ra.Exit == rb.Exit {
+	argv := cs.Steps[idx].Argv
+	if normaliseOut(argv, ra.Stdout) == normaliseOut(argv, rb.Stdout) && ra.Exit == rb.Exit {
 		return false, "plain build prints the same output on both layouts"
 	}
-	return true, "plain build, real processes: output differs between the canonical and the permuted layout: " + firstDiff(string(ra.Stdout), string(rb.Stdout))
+	return true, "plain build, real processes: output differs between the canonical and the permuted layout: " + firstDiff(normaliseOut(argv, ra.Stdout), normaliseOut(argv, rb.Stdout))
 }
 
 func (o *cfgLayout) Shrinks(c *Ctx, cs *Case) []*Case {
